@@ -48,6 +48,23 @@ MCMsgs(s, h) == UNION {UserMsgs(s, h, u) : u \in Users}
                 \cup AdminMsgs(s.owner) \cup AdminMsgs(s.attMgr) \cup AdminMsgs(s.pauser) \cup AdminMsgs(s.tokCtl)
                 \cup (IF s.pending # None THEN AdminMsgs(s.pending) ELSE {}) \cup AdminMsgs("a3")
 
+\* multi-message transactions: all-or-nothing on one branch
+Batches(s, h) ==
+  LET recv(u, d) == [type |-> "ReceiveMessage", from |-> u, att |-> HonestAtt(s),
+                     wire |-> WireMsg(0, d, NOBLE, FreshIn(s, d), M1, ModulePadded, Zero32, BurnBody(0, T1, Pad("a3"), 1, Pad("x2")))] IN
+  { [type |-> "Batch", msgs |-> <<[type |-> "UpdatePauser", from |-> s.owner, new |-> "a3"], [type |-> "AcceptOwner", from |-> "a8"]>>],
+    [type |-> "Batch", msgs |-> <<[type |-> "UpdateOwner", from |-> s.owner, new |-> "a2"], [type |-> "AcceptOwner", from |-> "a2"],
+                                  [type |-> "PauseBurningAndMinting", from |-> s.pauser]>>],
+    [type |-> "Batch", msgs |-> <<[type |-> "DepositForBurn", from |-> "a1", amt |-> 1, dst |-> "d1", mrcpt |-> B("j", "x1"), tok |-> MINT],
+                                  [type |-> "SendMessage", from |-> "a1", dst |-> "d1", rcpt |-> R1, body |-> Raw(1, 9000)]>>],
+    [type |-> "Batch", msgs |-> <<recv("a1", "d1"), recv("a2", "d1")>>],
+    [type |-> "Batch", msgs |-> <<recv("a1", "d1"), [type |-> "SendMessage", from |-> "a1", dst |-> "d1", rcpt |-> R1, body |-> Raw(1, 10)]>>] }
+
+SubmitBatch(b) ==
+  /\ tx.pc = "idle"
+  /\ LET r == RunBatch(st, b, <<>>) IN
+     /\ st' = r.post /\ last' = r.out /\ hist' = HistExtend(hist, r.out) /\ tx' = Idle
+
 CONSTANT MaxDepth
 Init == InitOver({SimInit}) /\ trace = <<>>
 \* simulation evaluates every candidate successor, so the behaviour is printed by a dedicated final
@@ -55,7 +72,7 @@ Init == InitOver({SimInit}) /\ trace = <<>>
 Done == /\ tx.pc = "idle" /\ hist.steps = MaxDepth /\ trace # <<>>
         /\ PrintT(ToJson([init |-> SimInit, events |-> trace]))
         /\ trace' = <<>> /\ UNCHANGED vars
-Next == \/ /\ NextOver(MCMsgs, MaxDepth)
+Next == \/ /\ (NextOver(MCMsgs, MaxDepth) \/ (hist.steps < MaxDepth /\ \E b \in Batches(st, hist) : SubmitBatch(b)))
            /\ trace' = IF tx'.pc = "idle" /\ hist'.steps # hist.steps
                        THEN Append(trace, [msg |-> last'.msg, faults |-> last'.faults]) ELSE trace
         \/ Done
